@@ -415,9 +415,98 @@ def _fn(name):
     return _U["names"][name]
 
 
+# ------------------------------------------------------------------ optional-argument forms (ArrayFnUnit.OptRows)
+# template "<tag>:<form>": one character per optional slot, "-" not given, "b" given bare, "q" given as a quantity in
+# the slot's operand unit.  Bare values are the physical numbers in the scale-1 unit (constants of the call).
+def _slot(c, ch, i, phys, scalar=False):
+    np = c.np
+    if ch == "q":
+        return c.mk(i, phys)
+    return float(phys) if np.ndim(phys) == 0 else np.array(phys, dtype=float)
+
+
+def _opt_trapezoid(c, fm):
+    kw = {}
+    if fm[0] != "-":
+        kw["x"] = _slot(c, fm[0], 1, [0.0, 1.0, 3.0, 3.5])
+    if fm[1] != "-":
+        kw["dx"] = _slot(c, fm[1], 2, 0.5)
+    return c.np.trapezoid(c.o(0), **kw)
+
+
+def _opt_histogram(density):
+    def run(c, fm):
+        kw = {"bins": 3}
+        if density:
+            kw["density"] = True
+        if fm[0] != "-":
+            kw["range"] = (_slot(c, fm[0], 1, 0.25), _slot(c, fm[0], 1, 5.5))
+        if fm[1] != "-":
+            kw["weights"] = _slot(c, fm[1], 2, VALS["v4"][2])
+        return c.np.histogram(c.mk(0, H0), **kw)
+
+    return run
+
+
+def _opt_histogram_bins(c, fm):
+    kw = {"bins": 3 if fm[0] == "-" else _slot(c, fm[0], 1, [0.5, 2.0, 3.75, 5.0])}
+    if fm[1] != "-":
+        kw["range"] = (_slot(c, fm[1], 2, 0.25), _slot(c, fm[1], 2, 5.5))
+    return c.np.histogram(c.mk(0, H0), **kw)
+
+
+def _opt_interp_lr(c, fm):
+    # the first and the last point lie outside xp: left= and right= are used
+    return c.np.interp(c.mk(0, [0.5, 2.5, 4.75]), c.mk(0, [1.0, 2.0, 3.0, 4.0]), c.o(1, "v4"), left=_slot(c, fm[0], 2, 7.5), right=_slot(c, fm[0], 2, 8.25))
+
+
+def _opt_interp_period(c, fm):
+    return c.np.interp(c.mk(0, [0.5, 2.5, 5.75]), c.mk(0, [1.0, 2.0, 3.0, 3.5]), c.o(1, "v4"), period=_slot(c, fm[0], 2, 4.0))
+
+
+def _opt_clip(c, fm):
+    lo = None if fm[0] == "-" else _slot(c, fm[0], 1, 1.25)
+    hi = None if fm[1] == "-" else _slot(c, fm[1], 2, 3.5)
+    return c.np.clip(c.o(0), lo, hi)
+
+
+def _opt_pad_cv(c, fm):
+    return c.np.pad(c.o(0), 1, constant_values=_slot(c, fm[0], 1, 7.5))
+
+
+def _opt_pad_ev(c, fm):
+    return c.np.pad(c.o(0), 2, mode="linear_ramp", end_values=_slot(c, fm[0], 1, 7.5))
+
+
+def _opt_average(c, fm):
+    return c.np.average(c.o(0), weights=_slot(c, fm[0], 1, VALS["v4"][1]))
+
+
+def _opt_gradient(c, fm):
+    return c.np.gradient(c.o(0), _slot(c, fm[0], 1, 0.5), _slot(c, fm[1], 2, [0.0, 1.0, 3.0]))
+
+
+OPT = {
+    ("np.trapezoid", "o"): _opt_trapezoid,
+    ("np.histogram", "o"): _opt_histogram(False),
+    ("np.histogram", "od"): _opt_histogram(True),
+    ("np.histogram", "obr"): _opt_histogram_bins,
+    ("np.interp", "olr"): _opt_interp_lr,
+    ("np.interp", "oper"): _opt_interp_period,
+    ("np.clip", "o"): _opt_clip,
+    ("np.pad", "ocv"): _opt_pad_cv,
+    ("np.pad", "oev"): _opt_pad_ev,
+    ("np.average", "o"): _opt_average,
+    ("np.gradient", "o"): _opt_gradient,
+}
+
+
 def _call(c):
     case = c.case
     name, t = case["f"], case["t"]
+    if ":" in t:
+        tag, fm = t.split(":", 1)
+        return OPT[(name, tag)](c, fm)
     if (name, t) in SPEC:
         return SPEC[(name, t)](c)
     pos, kw = ARGS[name](c) if name in ARGS else ((), {})
